@@ -24,9 +24,10 @@ struct FixOps {
 	static std::string bin(Op op, const uv::Big& a, const uv::Big& b) {
 		F x = mk(a), y = mk(b);
 		switch (op) {
-		case ADD: return out(x + y);
-		case SUB: return out(x - y);
-		case MUL: return out(x * y);
+		// equal encodings: use ONE object on both sides (x op= x) — the result must not depend on aliasing
+		case ADD: if (a == b) { x += x; return out(x); } return out(x + y);
+		case SUB: if (a == b) { x -= x; return out(x); } return out(x - y);
+		case MUL: if (a == b) { x *= x; return out(x); } return out(x * y);
 		case DIV: {
 			F r; r.clear();
 			bool ok = uv::guarded([&] { r = x / y; });
